@@ -146,6 +146,14 @@ def cases(tier, seed, shard, nshards):
                 continue
             yield {"k": "join", "d": dl[k % 6], "base": "plain", "item": ["plain", "aliased", "subquery"][k % 3], "l": lsrc, "r": rsrc, "samecol": True,
                    "form": form, "extra": [], "pre": None}
+    for base in ("plain", "schema", "schema-chain", "temporal"):
+        for lsrc, rsrc in itertools.product(["base", "item", "foreign", "undeclared-cte", "base-near", "none"], repeat=2):
+            for form in ("plain", "arith", "fn"):
+                for pre_ in (None, "render", "copy"):
+                    k += 1
+                    if k % nshards == shard:
+                        yield {"k": "join", "d": dl[k % 6], "base": base, "item": base, "self_join": True, "l": lsrc, "r": rsrc, "samecol": True,
+                               "form": form, "extra": [], "pre": pre_}
     rnd = random.Random("C14:%d:%d" % (seed, shard))
     for _ in range((40000 if tier == "quick" else 600000) // nshards):
         srcs = ["base", "item", "foreign", "base-copy", "item-copy", "prev-join", "update", "base2", "none", "foreign2",
@@ -231,6 +239,10 @@ def run_join(case, mon):
     JoinException = reg["JoinException"]
     base = w.source(case["base"], "b")
     item = w.source(case["item"], "j")
+    if case.get("self_join"):
+        # a second, equal object for the table of FROM: on success the library gives it its automatic alias in place; on
+        # rejection nothing may have happened to it
+        item = w.source(case["base"], "b")
     foreign = w.source(case.get("foreign_shape", "plain"), "f")
     foreign2 = T("f2", alias="ff")
     prev = T("p")
@@ -372,6 +384,20 @@ def run_join(case, mon):
     # reference verdict
     missing = [t for t in refs if t is not None and not any(same(t, s, reg) for s in available)]
     expect_invalid = bool(missing) and how == "on"
+    # a rejected call is no call: statement, joined item and every table keep rendering, comparing and hashing as before
+    mutable = pre is None and mon.evaluations % 5 == 0
+    if mutable:
+        q.immutable = False  # (an in-place builder: what a failed call leaves behind stays in the statement)
+    def marks():
+        out = []
+        for o_ in [q, item] + [x_ for x_ in pool.values() if x_ is not None]:
+            try:
+                out.append((type(o_).__name__, getattr(o_, "alias", None), str(o_), hash(o_) if isinstance(o_, (reg["Table"], reg["AliasedQuery"])) else 0))
+            except Exception as e_:
+                out.append(("<exc>", type(e_).__name__))
+        return out
+    before_marks = marks()
+    j = None
     try:
         j = q.join(item)
         if how == "on":
@@ -396,6 +422,27 @@ def run_join(case, mon):
         if not isinstance(outcome, JoinException):
             mon.violation("join:wrong-exception:%s" % type(outcome).__name__, "expected JoinException, got %r (%s)" % (outcome, shape))
             return
+        mon.count("rejected_joins_checked_for_marks")
+        after_marks = marks()
+        if after_marks != before_marks:
+            k_ = [i_ for i_, (a_, b_) in enumerate(zip(before_marks, after_marks)) if a_ != b_][0]
+            mon.violation("join:rejected-call-leaves-a-mark:%s%s" % (before_marks[k_][0], ":mutable" if mutable else ""),
+                          "the join was rejected (%s) but %s changed from %r to %r" % (shape, ["the statement", "the joined item"][k_] if k_ < 2 else "a table",
+                                                                                        before_marks[k_][1:], after_marks[k_][1:]), {"case": case})
+            return
+        if j is not None and not mutable:
+            # the pending join is still usable: a valid criterion on the same Joiner gives what a fresh join gives
+            good = reg["BasicCriterion"](reg["Equality"].eq, reg["Field"]("id", table=item), reg["Field"]("id", table=available[0]))
+            try:
+                retry = str(j.on(good))
+                fresh = str(q.join(item).on(good))
+                mon.count("retried_joiners")
+                if retry != fresh:
+                    mon.violation("join:rejected-call-leaves-a-mark:Joiner", "after a rejected on() the same pending join gives %r with a valid criterion, a fresh one %r" % (
+                        retry[:220], fresh[:220]), {"case": case})
+                    return
+            except Exception:
+                mon.count("retried_joiners_rejected")
     else:
         mon.count("join_valid_by_reference")
         if outcome is not None:
